@@ -1,13 +1,13 @@
 #!/bin/sh
 # audit_seeds.sh [-j N] [ids...] : runs the quick check of the target property against every seeded change (each on its
 # own scratch worktree with its own scratch and evidence directories, N at a time; default 4) and writes
-# /verif/seeded/AUDIT.txt. ~1-1.5 minutes per seeded change and job.
+# /verif/seeded/AUDIT.txt (or $AUDIT_OUT, for a partial pass). ~1-1.5 minutes per seeded change and job.
 cd /verif
 jobs=4
 if [ "$1" = "-j" ]; then jobs=$2; shift 2; fi
 ids=${@:-$(ls seeded | grep '^S-')}
 mkdir -p /verif/.work/audit
-out=/verif/seeded/AUDIT.txt
+out=${AUDIT_OUT:-/verif/seeded/AUDIT.txt}
 one() {
   id=$1
   prop=$(python3 -c "import json;print(json.load(open('/verif/seeded/$id/meta.json'))['breaks_property'])")
